@@ -12,10 +12,10 @@ META = {
              'parsed in its mode (string and AST-class spelling) and compared with the sub-tree CPython extracts from a layout-neutral embedding '
              '(fragment on own lines inside the wrapper brackets), positions fragment-relative; (c) invalid input: one-token deletions, duplications, '
              'transpositions of valid fragments and valid fragments of other modes; pfst accepting what the embedding rejects, or returning a different '
-             'tree, is a disagreement. programs = distinct (mode, text) pairs judged; a cell is (part, mode, node class, verdict class).'),
+             'tree, is a disagreement. programs = distinct (mode, text) pairs judged; a cell is (part, mode, node class, verdict class). The hostile table is a COMPLETE cross product in both tiers: every text of every mode\'s table plus a list of wrapper-breaking fragments (\'a if b\', \'a:b # c\', \'a) if (b\', \'*x] if [b\', \'yield from x\', ...) x every mode x {as is, multi-byte identifiers, trailing \';\', trailing \',\'}; a text whose own brackets do not balance (CPython tokenizer) is invalid in every mode.'),
     'budget': {'quick': 45, 'thorough': 900},
-    'floors': {'quick': {'programs': 20000, 'whole_programs': 60, 'fragments_compared': 12000, 'invalid_judged': 3000, 'modes_exercised': 28},
-               'thorough': {'programs': 300000, 'whole_programs': 400, 'fragments_compared': 200000, 'invalid_judged': 40000, 'modes_exercised': 30}},
+    'floors': {'quick': {'hostile_table_cases': 12000, 'programs': 20000, 'whole_programs': 60, 'fragments_compared': 12000, 'invalid_judged': 3000, 'modes_exercised': 28},
+               'thorough': {'hostile_table_cases': 12000, 'programs': 300000, 'whole_programs': 400, 'fragments_compared': 200000, 'invalid_judged': 40000, 'modes_exercised': 30}},
     'programs_counter': 'programs',
     'assumptions': ['CPython 3.12 ast.parse on the embedding construct is the reference for fragment modes',
                     "each mode's admitted language is read from the Mode documentation ('expr' admits a lone *a; single-item modes reject a, b)",
